@@ -57,10 +57,6 @@ theorem split_us : ∀ (a a' b b' : List Char), NoUs a → NoUs a' →
       obtain ⟨h1, h2⟩ := ih cs' b b' hcs hcs' h.2
       exact ⟨by rw [h.1, h1], h2⟩
 
-theorem split_us' (a a' b b' : List Char) (ha : NoUs a) (ha' : NoUs a')
-    (h : a ++ (us ++ b) = a' ++ (us ++ b')) : a = a' ∧ b = b' :=
-  split_us a a' b b' ha ha' (by simpa [List.append_assoc] using h)
-
 theorem tail_inj (t1 t2 : Transport) (i1 i2 : Bool)
     (h : syncOrAsync t1 ++ (if i1 then "_internal".toList else []) =
          syncOrAsync t2 ++ (if i2 then "_internal".toList else [])) :
@@ -454,7 +450,7 @@ theorem segments_ordered_contiguous (l0 l1 l2 l3 l4 : List Kind)
   rw [e1, e2, e3, e4]
   subst hs8 hs6 hs4 hs2
   simp only [step, List.length_cons, List.length_nil] at *
-  simp only [d1, d2, d3, d4, c1, c2, c3, c4, b1, b2, b3, b4, a1, a2, a3, a4, step, initSegs, Seg.mk.injEq]
+  simp only [d1, d2, d3, d4, c1, c2, c3, c4, b1, b2, b3, b4, a1, a2, a3, a4, initSegs, Seg.mk.injEq]
   repeat' apply And.intro
   all_goals first | omega | trivial
 
@@ -494,7 +490,7 @@ theorem void_sample_segments_counterexample (l0 l1 l2 l3 : List Kind)
   rw [d3, d4]
   subst hs6 hs4 hs2
   simp only [step, List.length_cons, List.length_nil] at *
-  simp only [c1, c2, c3, c4, b1, b2, b3, b4, a1, a2, a3, a4, step, initSegs, Seg.mk.injEq]
+  simp only [c3, c4, b3, b4, a3, a4, initSegs, Seg.mk.injEq]
   repeat' apply And.intro
   all_goals first | omega | trivial
 
@@ -625,13 +621,13 @@ theorem selectedOneofs_filter (o : List Char) : ∀ (fs : List Field) (seen : Li
     | none =>
       simp only [ih seen]
       have : inOneof o f = false := by simp [inOneof, hfo]
-      simp [List.find?_cons, this]
+      simp [this]
     | some o' =>
       simp only
       by_cases hp : f.proto3Optional = true
       · simp only [hp, if_true, ih seen]
         have : inOneof o f = false := by simp [inOneof, hp]
-        simp [List.find?_cons, this]
+        simp [this]
       · have hp' : f.proto3Optional = false := by simpa using hp
         simp only [hp', Bool.false_eq_true, if_false]
         by_cases hs : seen.contains o' = true
@@ -642,19 +638,19 @@ theorem selectedOneofs_filter (o : List Char) : ∀ (fs : List Field) (seen : Li
           · have : inOneof o f = false := by
               simp only [inOneof, hfo, hp', Bool.not_false, Bool.and_true]
               simpa using ho
-            simp [List.find?_cons, this]
+            simp [this]
         · have hs' : seen.contains o' = false := by simpa using hs
           have hm : ¬ o' ∈ seen := by simpa using hs'
           simp only [hs', Bool.false_eq_true, if_false, List.filter_cons, ih (o' :: seen)]
           by_cases ho : o' = o
           · subst ho
             have : inOneof o' f = true := by simp [inOneof, hfo, hp']
-            simp [List.find?_cons, this, hm]
+            simp [this, hm]
           · have : inOneof o f = false := by
               simp only [inOneof, hfo, hp', Bool.not_false, Bool.and_true]
               simpa using ho
             have hne : ¬ o = o' := fun h => ho h.symm
-            simp [List.find?_cons, this, hne]
+            simp [this, hne]
 
 theorem requiredNonOneof_filter (o : List Char) (fs : List Field) :
     (requiredNonOneof fs).filter (inOneof o) = [] := by
